@@ -87,7 +87,7 @@ class Hexital:
                 indicator.candle_manager = self._candles[indicator.timeframe]
             else:
                 manager = CandleManager(
-                    deepcopy(self._candles[DEFAULT_CANDLES]).candles,
+                    self._raw_candles_copy(),
                     candles_lifespan=self.candles_lifespan,
                     timeframe=indicator.timeframe if indicator.timeframe else self.timeframe,
                     timeframe_fill=self.timeframe_fill,
@@ -97,6 +97,18 @@ class Hexital:
                 indicator.candle_manager = self._candles[manager.name]
 
         return valid_indicators
+
+    def _raw_candles_copy(self) -> List[Candle]:
+        """Copies of the base candles to seed another timeframe. A candlestick conversion already
+        applied to the base candles is undone on the copies: the new manager collapses raw candles
+        and converts the collapsed ones itself"""
+        candles = deepcopy(self._candles[DEFAULT_CANDLES].candles)
+        for candle in candles:
+            if candle.tag:
+                candle.recover_clean_values()
+                candle.clean_values = {}
+                candle.reset_candle()
+        return candles
 
     def _build_indicator(self, raw_indicator: dict) -> Indicator:
         analysis_map = PATTERN_MAP | MOVEMENT_MAP
